@@ -346,6 +346,7 @@ func (w *spWorld) verifySigs(tx *wire.MsgTx) error {
 func (w *spWorld) recordSend(n int, tx *wire.MsgTx) {
 	w.sendTx[n] = tx
 	h := tx.TxHash()
+	w.e.chain.Track(h)
 	for i, out := range tx.TxOut {
 		if string(out.PkScript) != string(w.foreign) {
 			c := w.nbase + n
@@ -469,7 +470,8 @@ func (w *spWorld) apply(st *spStep, a *spArgs, rep *common.Report) error {
 		var sel []wire.OutPoint
 		what := fmt.Sprintf("%s(acct %d, %s, minconf %d)", st.Op, a.Acct, a.Scope, a.Mc)
 		if st.Op == "SendExplicit" {
-			amount = w.sumVal(a.Sel) - margin(a.N)
+			// half of what the selection is worth: the other half (minus the fee) comes back as change
+			amount = w.sumVal(a.Sel) / 2
 			for _, c := range sorted(a.Sel) {
 				sel = append(sel, w.opOf[c])
 			}
@@ -567,13 +569,37 @@ func (w *spWorld) apply(st *spStep, a *spArgs, rep *common.Report) error {
 				min = v
 			}
 		}
-		for try := 0; try < 4; try++ {
+		// eligible coins by value, largest first
+		vals := make([]int64, 0, len(a.Elig))
+		for _, c := range a.Elig {
+			vals = append(vals, w.outOf[c].Value)
+		}
+		sort.Slice(vals, func(i, j int) bool { return vals[i] > vals[j] })
+		for try := 0; try < 4+len(vals); try++ {
 			amount := min / 2
 			if try >= 2 {
 				amount = w.sumVal(a.Elig) - margin(9)
 			}
+			if try >= 4 {
+				// tight requests: the k largest coins cover the outputs plus the fee assumed before
+				// any input is known, but not the fee of k inputs, so the author has to come back for
+				// more (the input source is asked a second time)
+				k := try - 3
+				if k >= len(vals) {
+					break
+				}
+				var sum int64
+				for _, v := range vals[:k] {
+					sum += v
+				}
+				amount = sum - 100 // between the fee of a transaction without inputs (~73 sat) and with k inputs
+			}
 			outs := []*wire.TxOut{wire.NewTxOut(amount, w.foreign)}
-			atx, err := e.w.CreateSimpleTx(&scope, uint32(a.Acct), outs, int32(a.Mc), 1000, wallet.CoinSelectionRandom, true)
+			var strategy wallet.CoinSelectionStrategy = wallet.CoinSelectionRandom
+			if try >= 4 {
+				strategy = wallet.CoinSelectionLargest
+			}
+			atx, err := e.w.CreateSimpleTx(&scope, uint32(a.Acct), outs, int32(a.Mc), 1000, strategy, true)
 			w.n++
 			what := fmt.Sprintf("CreateSimpleTx dry run, random selection (acct %d, %s, minconf %d)", a.Acct, a.Scope, a.Mc)
 			if err != nil {
